@@ -144,7 +144,8 @@ Lemma wf_field_parts : forall f, wf_field f = true ->
   ((f_label f =? LABEL_OPTIONAL) || (f_label f =? LABEL_REQUIRED) || (f_label f =? LABEL_REPEATED)) = true /\
   (negb (f_msg_mapentry f) || ((f_type f =? TYPE_MESSAGE) && (f_label f =? LABEL_REPEATED) && negb (f_is_ext f))) = true /\
   (negb ((f_label f =? LABEL_REPEATED) || f_is_ext f) || negb (f_resolve f FieldPresence =? FP_LEGACY_REQUIRED)) = true /\
-  (negb (f_p3opt f) || (f_label f =? LABEL_OPTIONAL)) = true.
+  ((negb (f_parent_mapentry f) || (negb (f_is_ext f) && negb (f_type f =? TYPE_GROUP))) && negb (f_is_ext f && f_has_oneof f)) = true /\
+  (negb (f_p3opt f) || ((f_label f =? LABEL_OPTIONAL) && (f_edition f =? ED_PROTO3))) = true.
 Proof. intros f H. unfold wf_field in H. repeat (apply andb_prop in H; destruct H as [H ?]). repeat split; assumption. Qed.
 
 Lemma rt_field_flags_resolved : forall f, wf_field f = true ->
@@ -183,7 +184,7 @@ Ltac unfold_consts :=
 Ltac field_setup f H :=
   let Hs := fresh "Hs" in let Hw := fresh "Hw" in let Hl := fresh "Hl" in
   let Hm := fresh "Hm" in let Hr := fresh "Hr" in let Hp := fresh "Hp" in
-  destruct (wf_field_parts f H) as (Hs & Hw & Hl & Hm & Hr & Hp);
+  destruct (wf_field_parts f H) as (Hs & Hw & Hl & Hm & Hr & Hpm & Hp);
   pose proof (rt_field_flags_resolved f H) as Hfl; cbv zeta in Hfl.
 
 (* ---- proof automation: split on the label, then on the few type numbers that matter, then treat the
@@ -201,11 +202,21 @@ Ltac label_cases lab Hl :=
     clear E; destruct (lab =? 2) eqn:E; [apply N.eqb_eq in E; subst lab |
       clear E; destruct (lab =? 3) eqn:E; [apply N.eqb_eq in E; subst lab | discriminate Hl]]].
 
-(* after the constants are substituted, every remaining comparison is made an opaque boolean *)
+(* after the constants are substituted, every remaining comparison whose left side is not itself a
+   conditional is made an opaque boolean; then all booleans are split, conditionals reduce, and the
+   comparisons that have become closed are computed *)
 Ltac opaque_eqb :=
   repeat match goal with
   | |- context [ (?a =? ?b) ] =>
-      let v := fresh "b" in set (v := (a =? b)) in *; clearbody v
+      lazymatch a with
+      | (if _ then _ else _) => fail
+      | _ => let v := fresh "b" in set (v := (a =? b)) in *; clearbody v
+      end
+  | HH : context [ (?a =? ?b) ] |- _ =>
+      lazymatch a with
+      | (if _ then _ else _) => fail
+      | _ => let v := fresh "b" in set (v := (a =? b)) in *; clearbody v
+      end
   end.
 
 Ltac opaque_ed :=
@@ -216,11 +227,18 @@ Ltac opaque_ed :=
 
 Ltac clear_unused_bools := repeat match goal with v : bool |- _ => clear v end.
 
-Ltac bool_cases :=
-  opaque_ed; clear_unused_bools;
+Ltac bool_split :=
   repeat match goal with
-  | v : bool |- _ => destruct v; cbn [andb orb negb] in *; try discriminate; try reflexivity
+  | v : bool |- _ => destruct v; cbn [andb orb negb N.eqb Pos.eqb] in *; try discriminate; try reflexivity
   end.
+
+Ltac bool_cases :=
+  unfold f_resolve in *;
+  cbn [f_edition f_label f_type f_number f_is_ext f_has_oneof f_p3opt f_packed f_msg_mapentry f_parent_mapentry f_chain] in *;
+  cbn [andb orb negb N.eqb Pos.eqb] in *;
+  opaque_ed; opaque_eqb; clear_unused_bools; bool_split;
+  (* comparisons that were hidden under a conditional *)
+  try (opaque_eqb; bool_split).
 
 Lemma fl_legacy : forall f, wf_field f = true ->
   IsLegacyRequired (rt_field_flags f) = (f_resolve f FieldPresence =? FP_LEGACY_REQUIRED).
@@ -262,11 +280,12 @@ Lemma field_facts : forall f, wf_field f = true ->
   ((f_label f =? LABEL_OPTIONAL) || (f_label f =? LABEL_REQUIRED) || (f_label f =? LABEL_REPEATED)) = true /\
   (negb (f_msg_mapentry f) || ((f_type f =? TYPE_MESSAGE) && (f_label f =? LABEL_REPEATED) && negb (f_is_ext f))) = true /\
   (negb ((f_label f =? LABEL_REPEATED) || f_is_ext f) || negb LR) = true /\
-  (negb (f_p3opt f) || (f_label f =? LABEL_OPTIONAL)) = true /\
+  ((negb (f_parent_mapentry f) || (negb (f_is_ext f) && negb (f_type f =? TYPE_GROUP))) && negb (f_is_ext f && f_has_oneof f)) = true /\
+  (negb (f_p3opt f) || ((f_label f =? LABEL_OPTIONAL) && (f_edition f =? ED_PROTO3))) = true /\
   (is_editions (f_edition f) || (negb LR && negb DL)) = true.
 Proof.
   intros f H. cbv zeta.
-  destruct (wf_field_parts f H) as (Hs & Hw & Hl & Hm & Hr & Hp).
+  destruct (wf_field_parts f H) as (Hs & Hw & Hl & Hm & Hr & Hpm & Hp).
   rewrite (fl_legacy f H), (fl_presence f H), (fl_delimited f H), (fl_packed f H).
   repeat split; try assumption.
   destruct (is_editions (f_edition f)) eqn:He; [reflexivity |].
@@ -276,9 +295,9 @@ Qed.
 Ltac field_start f H :=
   let A1 := fresh "A" in let A2 := fresh "A" in let A3 := fresh "A" in let A4 := fresh "A" in
   let Hl := fresh "Hl" in let Hm := fresh "Hm" in let Hr := fresh "Hr" in let Hp := fresh "Hp" in
-  let H23 := fresh "H23" in
+  let H23 := fresh "H23" in let Hpm := fresh "Hpm" in
   pose proof (field_facts f H) as FF; cbv zeta in FF;
-  destruct FF as (A1 & A2 & A3 & A4 & Hl & Hm & Hr & Hp & H23);
+  destruct FF as (A1 & A2 & A3 & A4 & Hl & Hm & Hr & Hpm & Hp & H23);
   clear H.
 
 Theorem cardinality_eq_runtime_lemma : forall f, wf_field f = true -> cardinality f = rt_cardinality f.
@@ -286,7 +305,7 @@ Proof.
   intros f H. field_start f H.
   unfold cardinality, rt_cardinality. rewrite A. clear A A0 A1 A2 Hm Hp.
   destruct f as [e lab ty num ext oo p3 pk mm pm ch]; cbn [f_edition f_label f_type f_number f_is_ext f_has_oneof f_p3opt f_packed f_msg_mapentry f_parent_mapentry f_chain] in *.
-  unfold_consts. label_cases lab Hl; cbn [N.eqb Pos.eqb] in *; opaque_eqb; bool_cases.
+  unfold_consts. label_cases lab Hl; cbn [N.eqb Pos.eqb] in *; bool_cases.
 Qed.
 
 Lemma is_map_eq_runtime_lemma : forall f, wf_field f = true -> is_map f = rt_is_map f.
@@ -295,7 +314,7 @@ Proof.
   unfold is_map, rt_is_map, is_map_entry_typed, rt_has_message. clear A A0 A1 A2 Hr Hp H23.
   destruct f as [e lab ty num ext oo p3 pk mm pm ch]; cbn [f_edition f_label f_type f_number f_is_ext f_has_oneof f_p3opt f_packed f_msg_mapentry f_parent_mapentry f_chain] in *.
   unfold_consts. label_cases lab Hl; cbn [N.eqb Pos.eqb] in *;
-  (split_eqb ty 11; [| split_eqb ty 10]); cbn [N.eqb Pos.eqb] in *; opaque_eqb; bool_cases.
+  (split_eqb ty 11; [| split_eqb ty 10]); cbn [N.eqb Pos.eqb] in *; bool_cases.
 Qed.
 
 Theorem kind_eq_runtime_lemma : forall f, wf_field f = true -> kind f = rt_kind f.
@@ -306,5 +325,213 @@ Proof.
   destruct f as [e lab ty num ext oo p3 pk mm pm ch]; cbn [f_edition f_label f_type f_number f_is_ext f_has_oneof f_p3opt f_packed f_msg_mapentry f_parent_mapentry f_chain] in *.
   unfold_consts. label_cases lab Hl; cbn [N.eqb Pos.eqb] in *;
   (split_eqb ty 11; [| split_eqb ty 10]); cbn [N.eqb Pos.eqb] in *;
-  opaque_eqb; bool_cases.
+  bool_cases.
+Qed.
+
+Ltac take_apart f :=
+  destruct f as [e lab ty num ext oo p3 pk mm pm ch];
+  cbn [f_edition f_label f_type f_number f_is_ext f_has_oneof f_p3opt f_packed f_msg_mapentry f_parent_mapentry f_chain] in *.
+
+Theorem has_presence_eq_runtime_lemma : forall f, wf_field f = true -> has_presence f = rt_has_presence f.
+Proof.
+  intros f H. pose proof (kind_eq_runtime_lemma f H) as HK. pose proof (cardinality_eq_runtime_lemma f H) as HC.
+  field_start f H.
+  unfold has_presence, rt_has_presence. rewrite <- HC, A0. clear HC A A0 A2 Hp.
+  unfold rt_has_message.
+  (* the linker asks Kind(), the runtime asks whether a message type is attached *)
+  unfold kind, rt_kind, cardinality, is_map, is_map_entry_typed in *. rewrite A1 in *. clear A1 HK.
+  take_apart f.
+  unfold_consts. label_cases lab Hl; cbn [N.eqb Pos.eqb] in *;
+  (split_eqb ty 11; [| split_eqb ty 10]); cbn [N.eqb Pos.eqb] in *; bool_cases.
+Qed.
+
+Theorem is_packed_eq_runtime_lemma : forall f, wf_field f = true -> is_packed f = rt_is_packed f.
+Proof.
+  intros f H. pose proof (kind_eq_runtime_lemma f H) as HK. pose proof (cardinality_eq_runtime_lemma f H) as HC.
+  field_start f H.
+  unfold is_packed, rt_is_packed, can_pack. rewrite <- HC, <- HK, A2. clear HC HK A A0 A1 A2 Hp.
+  generalize (kind f). intro k. generalize (cardinality f). intro c.
+  unfold_consts.
+  destruct (f_packed f) as [pb |]; bool_cases.
+Qed.
+
+Theorem is_list_eq_runtime_lemma : forall f, wf_field f = true -> is_list f = rt_is_list f.
+Proof.
+  intros f H. pose proof (is_map_eq_runtime_lemma f H) as HM. pose proof (cardinality_eq_runtime_lemma f H) as HC.
+  field_start f H.
+  unfold is_list, rt_is_list. rewrite <- HC, <- HM. clear HC HM A A0 A1 A2 Hp.
+  unfold cardinality, is_map, is_map_entry_typed.
+  take_apart f.
+  unfold_consts. label_cases lab Hl; cbn [N.eqb Pos.eqb] in *;
+  (split_eqb ty 11; [| split_eqb ty 10]); cbn [N.eqb Pos.eqb] in *; bool_cases.
+Qed.
+
+Theorem has_optional_keyword_eq_runtime_lemma : forall f, wf_field f = true ->
+  has_optional_keyword f = rt_has_optional_keyword f.
+Proof.
+  intros f H. pose proof (cardinality_eq_runtime_lemma f H) as HC.
+  field_start f H.
+  unfold has_optional_keyword, rt_has_optional_keyword. rewrite <- HC. clear HC A A0 A1 A2.
+  unfold cardinality.
+  take_apart f.
+  destruct (e =? ED_PROTO2) eqn:EP.
+  - apply N.eqb_eq in EP. subst e.
+    replace (is_editions ED_PROTO2) with false in * by (vm_compute; reflexivity).
+    replace (ED_PROTO2 =? ED_PROTO3) with false in * by (vm_compute; reflexivity).
+    unfold_consts; label_cases lab Hl; cbn [N.eqb Pos.eqb] in *; bool_cases.
+  - unfold_consts; label_cases lab Hl; cbn [N.eqb Pos.eqb] in *; bool_cases.
+Qed.
+
+(* ------------------------------------------------------------------ enums *)
+Lemma forallb_et_known_head : forall c, enum_type_known c = true ->
+  forall v, resolve_chain c EnumType = Some v -> ((v =? ET_OPEN) || (v =? ET_CLOSED)) = true.
+Proof.
+  intros c H v Hv. destruct (resolve_chain_some_inv c EnumType v Hv) as (pre & s & post & Hl & _ & Hs).
+  unfold enum_type_known in H. rewrite forallb_forall in H.
+  assert (Hin : In s (levels c)) by (rewrite Hl; apply in_or_app; right; left; reflexivity).
+  specialize (H s Hin). cbn [fs_get] in Hs. rewrite Hs in H. exact H.
+Qed.
+
+Lemma supported_defaults_et_known : forall e, supported_edition e = true ->
+  ((edition_default e EnumType =? ET_OPEN) || (edition_default e EnumType =? ET_CLOSED)) = true.
+Proof.
+  intros e H. unfold supported_edition in H.
+  destruct (e =? ED_PROTO2) eqn:E2; [apply N.eqb_eq in E2; subst e; vm_compute; reflexivity |].
+  destruct (e =? ED_PROTO3) eqn:E3; [apply N.eqb_eq in E3; subst e; vm_compute; reflexivity |].
+  destruct (e =? ED_2023) eqn:E4; [apply N.eqb_eq in E4; subst e; vm_compute; reflexivity |].
+  discriminate H.
+Qed.
+
+Lemma resolved_et_known : forall e c, supported_edition e = true -> enum_type_known c = true ->
+  ((resolve_feature e c EnumType =? ET_OPEN) || (resolve_feature e c EnumType =? ET_CLOSED)) = true.
+Proof.
+  intros e c Hs Hk. unfold resolve_feature.
+  destruct ((e =? ED_PROTO2) || (e =? ED_PROTO3)); [apply supported_defaults_et_known; exact Hs |].
+  destruct (resolve_chain c EnumType) as [v |] eqn:E.
+  - apply (forallb_et_known_head c Hk v E).
+  - apply supported_defaults_et_known; exact Hs.
+Qed.
+
+Theorem is_closed_eq_runtime_partial_lemma : forall e c,
+  wf_enum e c = true -> enum_type_known c = true -> is_closed e c = rt_is_closed e c.
+Proof.
+  intros e c H Hk. unfold wf_enum in H. apply andb_prop in H. destruct H as [Hs Hw].
+  unfold is_closed, rt_is_closed. rewrite (rt_flags_resolved e c Hs Hw). cbn [flags_of IsOpenEnum].
+  pose proof (resolved_et_known e c Hs Hk) as HR.
+  unfold ET_OPEN, ET_CLOSED in *.
+  destruct (resolve_feature e c EnumType =? 1) eqn:E1; destruct (resolve_feature e c EnumType =? 2) eqn:E2;
+    cbn [negb orb] in *; try reflexivity; try discriminate.
+  apply N.eqb_eq in E1. apply N.eqb_eq in E2. congruence.
+Qed.
+
+(* ENUM_TYPE_UNKNOWN (0) on an enum of an edition-2023 file: the linker says open, the runtime says closed *)
+Theorem is_closed_eq_runtime_refuted_lemma :
+  exists e c, wf_enum e c = true /\ is_closed e c <> rt_is_closed e c.
+Proof.
+  exists ED_2023, (CNest (mkfs None (Some 0) None None None None) (CFile fs_empty)).
+  split; [vm_compute; reflexivity | vm_compute; discriminate].
+Qed.
+
+(* ------------------------------------------------------------------ required numbers *)
+Theorem required_numbers_eq_runtime_partial_lemma : forall fields,
+  Forall (fun f => wf_field f = true) fields ->
+  Forall (fun f => is_editions (f_edition f) = false \/
+                   (f_resolve f FieldPresence =? FP_LEGACY_REQUIRED) = false) fields ->
+  required_numbers fields = rt_required_numbers fields.
+Proof.
+  intros fields Hwf Hg. unfold required_numbers, rt_required_numbers. f_equal.
+  induction fields as [| f r IH]; [reflexivity |].
+  inversion Hwf as [| x l Hf Hr]; subst. inversion Hg as [| x l Gf Gr]; subst.
+  cbn [filter]. rewrite (IH Hr Gr).
+  assert (Heq : (f_label f =? LABEL_REQUIRED) = (rt_cardinality f =? CARD_REQUIRED)).
+  { rewrite <- (cardinality_eq_runtime_lemma f Hf). unfold cardinality.
+    assert (HL : (is_editions (f_edition f) && (f_resolve f FieldPresence =? FP_LEGACY_REQUIRED)) = false).
+    { destruct Gf as [G | G]; rewrite G; [reflexivity | apply andb_false_r]. }
+    rewrite HL. unfold_consts.
+    destruct (f_label f =? 3) eqn:E3; [apply N.eqb_eq in E3; rewrite E3; reflexivity |].
+    destruct (f_label f =? 2) eqn:E2; [reflexivity |].
+    destruct (f_label f =? 1) eqn:E1; reflexivity. }
+  rewrite Heq. reflexivity.
+Qed.
+
+Definition witness_lr_field : field :=
+  mkfield ED_2023 LABEL_OPTIONAL 4 1 false false false None false false
+          (CNest (mkfs (Some FP_LEGACY_REQUIRED) None None None None None)
+                 (CNest fs_empty (CFile (mkfs (Some FP_IMPLICIT) (Some ET_OPEN) None None None None)))).
+
+(* editions/features_with_overrides.proto, message foo.bar.baz.Foo, field id = 1 *)
+Theorem required_numbers_eq_runtime_refuted_lemma :
+  exists fields, Forall (fun f => wf_field f = true) fields /\
+                 required_numbers fields = [] /\ rt_required_numbers fields = [1].
+Proof.
+  exists [witness_lr_field]. split; [| split].
+  - constructor; [vm_compute; reflexivity | constructor].
+  - vm_compute; reflexivity.
+  - vm_compute; reflexivity.
+Qed.
+
+(* the repaired function (select on Cardinality()) agrees with the runtime on every well-formed message *)
+Theorem required_numbers_repaired_eq_runtime_lemma : forall fields,
+  Forall (fun f => wf_field f = true) fields ->
+  required_numbers_repaired fields = rt_required_numbers fields.
+Proof.
+  intros fields Hwf. unfold required_numbers_repaired, rt_required_numbers. f_equal.
+  induction fields as [| f r IH]; [reflexivity |].
+  inversion Hwf as [| x l Hf Hr]; subst.
+  cbn [filter]. rewrite (IH Hr), (cardinality_eq_runtime_lemma f Hf). reflexivity.
+Qed.
+
+(* ------------------------------------------------------------------ where the compiler's checks give wf *)
+(* From source, field_presence can only be set on a field or on the file (option targets), the file may not
+   say LEGACY_REQUIRED (validateFile) and a repeated field or an extension may not set it
+   (validateFieldFeatures). That is enough for the legacy-required clause of wf_field. *)
+Fixpoint middle_unset (c : chain) : bool :=
+  match c with
+  | CFile _ => true
+  | CNest s p => match fs_fp s with None => middle_unset p | Some _ => false end
+  end.
+
+Definition only_ends_set_fp (c : chain) : bool :=
+  match c with CFile _ => true | CNest _ p => middle_unset p end.
+
+Fixpoint file_fs (c : chain) : fset := match c with CFile s => s | CNest _ p => file_fs p end.
+
+Lemma resolve_fp_middle : forall c, middle_unset c = true ->
+  resolve_chain c FieldPresence = fs_fp (file_fs c).
+Proof.
+  induction c as [s | s p IH]; intro H; cbn [resolve_chain fs_get file_fs middle_unset] in *.
+  - reflexivity.
+  - destruct (fs_fp s); [discriminate | apply IH; exact H].
+Qed.
+
+Lemma resolve_fp_ends : forall c, only_ends_set_fp c = true ->
+  fs_fp (chain_head c) = None ->
+  resolve_chain c FieldPresence = fs_fp (file_fs c).
+Proof.
+  intros c H Hh. destruct c as [s | s p].
+  - reflexivity.
+  - cbn [chain_head] in Hh. cbn [resolve_chain fs_get file_fs only_ends_set_fp] in *. rewrite Hh.
+    apply resolve_fp_middle. exact H.
+Qed.
+
+Lemma source_rules_give_no_lr : forall f,
+  only_ends_set_fp (f_chain f) = true ->
+  (match fs_fp (file_fs (f_chain f)) with Some v => negb (v =? FP_LEGACY_REQUIRED) | None => true end) = true ->
+  (((f_label f =? LABEL_REPEATED) || f_is_ext f) = true -> fs_fp (chain_head (f_chain f)) = None) ->
+  supported_edition (f_edition f) = true ->
+  (negb ((f_label f =? LABEL_REPEATED) || f_is_ext f) || negb (f_resolve f FieldPresence =? FP_LEGACY_REQUIRED)) = true.
+Proof.
+  intros f Ho Hf Hr Hs.
+  destruct ((f_label f =? LABEL_REPEATED) || f_is_ext f) eqn:E; [| reflexivity].
+  cbn [negb orb]. specialize (Hr eq_refl).
+  unfold f_resolve, resolve_feature.
+  assert (Hd : forall e, supported_edition e = true -> negb (edition_default e FieldPresence =? FP_LEGACY_REQUIRED) = true).
+  { intros e0 H0. unfold supported_edition in H0.
+    destruct (e0 =? ED_PROTO2) eqn:E2; [apply N.eqb_eq in E2; subst e0; vm_compute; reflexivity |].
+    destruct (e0 =? ED_PROTO3) eqn:E3; [apply N.eqb_eq in E3; subst e0; vm_compute; reflexivity |].
+    destruct (e0 =? ED_2023) eqn:E4; [apply N.eqb_eq in E4; subst e0; vm_compute; reflexivity |].
+    discriminate H0. }
+  destruct ((f_edition f =? ED_PROTO2) || (f_edition f =? ED_PROTO3)); [apply Hd; exact Hs |].
+  rewrite (resolve_fp_ends _ Ho Hr).
+  destruct (fs_fp (file_fs (f_chain f))); [exact Hf | apply Hd; exact Hs].
 Qed.
